@@ -56,10 +56,19 @@ Containers == {"array", "iter"}
 HasContainer(tr, c, e) == Has(tr, e) /\ ~(c = "iter" /\ tr = "Copy")
 
 RefApis == {"as_slice", "as_mut_slice", "deref", "from_slice", "from_mut_slice", "try_from_slice", "chunks_from_slice",
-            "chunks_from_slice_mut", "slice_from_chunks", "split_ref", "split_mut", "flatten_ref", "flatten_mut",
+            "chunks_from_slice_mut", "slice_from_chunks", "slice_from_chunks_mut", "from_chunks_mut", "into_chunks_mut",
+            "try_from_mut_slice", "from_array_mut", "unflatten_mut", "asmut_array", "split_ref", "split_mut", "flatten_ref", "flatten_mut",
             "unflatten_ref", "asref_array", "iter", "iter_mut", "from_array_ref", "arr_contents", "into_chunks"}
-MutApis == {"as_mut_slice", "from_mut_slice", "chunks_from_slice_mut", "split_mut", "flatten_mut", "iter_mut"}
-Misuses == {"outlive", "move_source", "mutate_source", "second_mut"}
-\* which misuse applies to which API (a second &mut only where the API hands out &mut)
-Applies(api, mis) == (mis = "second_mut" => api \in MutApis) /\ (api = "arr_contents" => mis = "outlive")
+MutApis == {"as_mut_slice", "from_mut_slice", "chunks_from_slice_mut", "split_mut", "flatten_mut", "iter_mut",
+            "slice_from_chunks_mut", "from_chunks_mut", "into_chunks_mut", "try_from_mut_slice", "from_array_mut",
+            "unflatten_mut", "asmut_array"}
+Misuses == {"outlive", "move_source", "mutate_source", "second_mut", "from_shared"}
+\* which misuse applies to which API: a second &mut, or obtaining the &mut from a shared borrow of the source,
+\* only where the API hands out &mut
+\* (split / flatten / unflatten pick their shared or mutable implementation from the receiver's type, so
+\*  handing them `&src' legitimately yields shared results: "from_shared" is not a misuse there)
+ByReceiver == {"split_mut", "flatten_mut", "unflatten_mut"}
+Applies(api, mis) == /\ (mis = "second_mut" => api \in MutApis)
+                     /\ (mis = "from_shared" => api \in MutApis \ ByReceiver)
+                     /\ (api = "arr_contents" => mis = "outlive")
 =============================================================================
